@@ -13,9 +13,10 @@ RULES = {
     'R1': 'receive paths: every recv/recvmsg/memcpy into a caller-supplied buffer uses a length that is the capacity, a remainder of it, or a peer value cut by a comparison with the capacity',
     'R2': 'the size reported to msg_process is cut by size >= sizeof(header), hdr->size >= sizeof(header) and hdr->size <= size (bytes received)',
     'R3': 'handle_new_connection is reached only after the whole fixed-size record was received, credentials were obtained and hdr.id is AUTHENTICATE; every other edge closes the socket; the record is freed on every path',
+    'R5': 'every send that reads from receive_buf uses a length bounded by its capacity (request.max_msg_size)',
     'R4': 'the capacity given to the receive slot is the allocation size of receive_buf; that size is at least what the receive path writes unconditionally (the header peek)',
 }
-FLOORS = {'R1': 6, 'R2': 3, 'R3': 5, 'R4': 3}
+FLOORS = {'R1': 6, 'R2': 3, 'R3': 5, 'R4': 3, 'R5': 1}
 
 
 def run(ctx):
@@ -23,6 +24,7 @@ def run(ctx):
     r2(ctx)
     r3(ctx)
     r4(ctx)
+    r5(ctx)
 
 
 def _derived_from_param(f, e, at, pname):
@@ -310,3 +312,44 @@ def _lower_bound(prog, e):
     if e.get('k') == 'stmtexpr':
         return _lower_bound(prog, e.get('last'))
     return 0
+
+
+def r5(ctx):
+    """reads out of receive_buf: the byte count of a send whose source is receive_buf must be bounded by the buffer size"""
+    prog = ctx.prog
+    n = 0
+    for f in prog.all_fns(files={'lib/ipcs.c', 'lib/ipc_setup.c', 'lib/ipc_shm.c', 'lib/ipc_socket.c'}):
+        for ev in f.events('CALL'):
+            if ev.callee in ('qb_ipc_us_send', 'send', 'write', 'memcpy') and len(ev.args) >= 3:
+                srcarg = ev.args[1]
+                if not field_is(srcarg, 'receive_buf'):
+                    continue
+                n += 1
+                ln = unwrap(ev.args[2])
+                ok = False
+                why = estr(ln)
+                c = cval(ln)
+                if c is not None:
+                    hdr = prog.record('qb_ipc_connection_response')['size']
+                    ok = c <= hdr      # the negotiated size is at least a connection response (R4)
+                else:
+                    # MIN(x, capacity) / (x < cap ? x : cap)
+                    if ln.get('k') == 'cond':
+                        leaves = [unwrap(ln['t']), unwrap(ln['f'])]
+                        cnd = unwrap(ln['c'])
+                        capleaf = [x for x in leaves if field_is(x, 'max_msg_size')]
+                        if capleaf and cnd.get('k') == 'bin' and cnd['op'] in ('<', '<=', '>', '>='):
+                            other = [x for x in leaves if x is not capleaf[0]][0]
+                            # the condition compares the two leaves, and the capacity is chosen when the other is larger
+                            l_, r_ = estr(cnd['l']), estr(cnd['r'])
+                            t_, f_ = estr(ln['t']), estr(ln['f'])
+                            is_min = ((l_, r_) == (t_, f_) and cnd['op'] in ('<', '<=')) or ((l_, r_) == (f_, t_) and cnd['op'] in ('>', '>='))
+                            ok = is_min
+                    if not ok:
+                        def bounded(a, fb, ls=estr(ln)):
+                            return a.ls == ls and a.op in ('<=', '<') and field_is(a.r, 'max_msg_size')
+                        ok = f.uncut_path(ev, bounded) is None
+                ctx.check('R5', '%s:read-from-receive_buf' % f.name, ok, ev, 'the %s bytes read from receive_buf are bounded by its size' % why,
+                          '%s sends %s bytes starting at receive_buf, a count the peer can drive past the buffer size (heap over-read sent to the peer)' % (f.name, why))
+    if n == 0:
+        raise AnalysisBroken('no read from receive_buf found (rule instance vanished)')
